@@ -436,6 +436,19 @@ func runC11(c *mc.Ctx) {
 					}
 					cases = append(cases, c11Case{N: n, Subset: string(b)})
 				}
+				// MANY chosen transactions under one node (a count of matches per subtree kept in a narrow
+				// type wraps at 256 / 65536): everything chosen; the first half and the last one
+				if h <= 16 || c.Thorough() && h <= 17 {
+					all, half := make([]byte, n), make([]byte, n)
+					for i := range all {
+						all[i] = '1'
+						half[i] = '0'
+						if i < 1<<(h-1) || i == n-1 {
+							half[i] = '1'
+						}
+					}
+					cases = append(cases, c11Case{N: n, Subset: string(all)}, c11Case{N: n, Subset: string(half)})
+				}
 			}
 		}
 	}
